@@ -132,6 +132,13 @@ Proof.
 Qed.
 #[local] Hint Resolve erase_existsb_eq : er.
 
+Lemma erase_scan_nomatch {A} n (l : list A) : erase (c_scan_nomatch n l) = Ok tt.
+Proof.
+  induction l as [|k l IH]; [reflexivity|]. cbn [c_scan_nomatch].
+  er.
+Qed.
+#[local] Hint Resolve erase_scan_nomatch : er.
+
 Lemma erase_is_black_tag s : erase (c_is_black_tag s) = Ok (is_black_tag s).
 Proof.
   unfold c_is_black_tag, is_black_tag. er.
@@ -147,6 +154,7 @@ Qed.
 Lemma erase_is_black_attr s : erase (c_is_black_attr s) = Ok (is_black_attr s).
 Proof.
   unfold c_is_black_attr, is_black_attr. er.
+  2:{ destruct (to_upper_cmp _ _); er. }
   destruct (erase_Ok_inv _ _ (erase_assoc_type (skipn 2 b) black_events)) as [c1 E1].
   destruct (erase_Ok_inv _ _ (erase_assoc_type b blacks)) as [c2 E2].
   rewrite E1, E2.
@@ -779,6 +787,15 @@ Proof.
   cw_go; [nia|]. eapply cwlp_conseq; [exact IH|]. cbv beta. intros _ c Hc. lia.
 Qed.
 
+Lemma c_scan_nomatch_cost {A} n (l : list A) : 0 <= n ->
+  cwlp (c_scan_nomatch n l) (fun _ c => c <= (n + 2) * Z.of_nat (List.length l)).
+Proof.
+  intros Hn.
+  induction l as [|k l IH]; cbn [c_scan_nomatch List.length]; [apply cwlp_ret; lia|].
+  rewrite Nat2Z.inj_succ, Z.mul_succ_r.
+  cw_go. eapply cwlp_conseq; [exact IH|]. cbv beta. intros _ c Hc. lia.
+Qed.
+
 Lemma black_tags_length : Z.of_nat (List.length black_tags) = 20. Proof. reflexivity. Qed.
 Lemma black_events_length : Z.of_nat (List.length black_events) = 319. Proof. reflexivity. Qed.
 Lemma blacks_length : Z.of_nat (List.length blacks) = 20. Proof. reflexivity. Qed.
@@ -788,7 +805,12 @@ Proof.
   unfold c_is_black_tag. pose proof (len_nonneg s).
   destruct (len s <? 3); [apply cwlp_ret; lia|].
   apply cwlp_bind. eapply cwlp_conseq; [apply c_upper_without_nulls_cost|].
-  intros [u|] c1 [Hc Hu]; [|apply cwlp_ret; lia].
+  intros [u|] c1 [Hc Hu].
+  2:{ (* no ASCII upper case: the same scans, nothing matches *)
+      cbv zeta. pose proof (len_remove_byte x00 s) as LR. pose proof (len_nonneg (remove_byte x00 s)).
+      apply cwlp_bind. eapply cwlp_conseq; [apply c_scan_nomatch_cost; lia|]. cbv beta.
+      rewrite black_tags_length. intros _ c2 Hc2.
+      cw_go; lia. }
   specialize (Hu u eq_refl). pose proof (len_nonneg u).
   apply cwlp_bind. eapply cwlp_conseq; [apply c_existsb_eq_cost|]. cbv beta.
   rewrite black_tags_length. intros b1 c2 Hc2.
@@ -799,7 +821,20 @@ Lemma c_is_black_attr_cost s : cwlp (c_is_black_attr s) (fun _ c => c <= 343 * l
 Proof.
   unfold c_is_black_attr. pose proof (len_nonneg s).
   apply cwlp_bind. eapply cwlp_conseq; [apply c_upper_without_nulls_cost|].
-  intros [u|] c1 [Hc Hu]; [|apply cwlp_ret; lia].
+  intros [u|] c1 [Hc Hu].
+  2:{ (* no ASCII upper case: the same comparisons and scans, nothing matches *)
+      cbv zeta. pose proof (len_remove_byte x00 s) as LR. pose proof (len_nonneg (remove_byte x00 s)).
+      assert (L2 : len (firstn 2 (remove_byte x00 s)) <= 2) by (rewrite len_firstn; lia).
+      assert (A : cwlp (c_scan_nomatch (len (remove_byte x00 s)) blacks)
+                       (fun _ c => c <= (len (remove_byte x00 s) + 2) * 20)).
+      { rewrite <- blacks_length. apply c_scan_nomatch_cost. lia. }
+      assert (B : cwlp (c_scan_nomatch (len (remove_byte x00 s)) black_events)
+                       (fun _ c => c <= (len (remove_byte x00 s) + 2) * 319)).
+      { rewrite <- black_events_length. apply c_scan_nomatch_cost. lia. }
+      cw_go.
+      - eapply cwlp_conseq; [exact B|]. cbv beta. intros _ c Hc3. cw_go.
+        eapply cwlp_conseq; [exact A|]. cbv beta. intros _ c' Hc4. cw_go. lia.
+      - cw_go. eapply cwlp_conseq; [exact A|]. cbv beta. intros _ c' Hc4. cw_go. lia. }
   specialize (Hu u eq_refl). pose proof (len_nonneg u). cbv zeta.
   destruct (len u <? 2) eqn:E2; [apply cwlp_ret; lia|].
   assert (L2 : len (firstn 2 u) <= 2) by (rewrite len_firstn; lia).
@@ -1041,6 +1076,11 @@ Ltac cw_step2 :=
   end.
 
 
+Ltac note_remove :=
+  repeat match goal with
+         | |- context [len (remove_byte ?c ?w)] => learn (len_remove_byte c w)
+         end.
+
 Lemma c_classify_cost h attr : 0 <= tok_len h ->
   cwlp (c_classify h attr) (fun _ c => c <= KC * tok_len h + KC0).
 Proof.
@@ -1048,7 +1088,7 @@ Proof.
   repeat (cw_step2; cbv beta zeta).
   all: try lia.
   all: try match goal with H : forall u, Some ?x = Some u -> _ |- _ => specialize (H x eq_refl) end.
-  all: note_cost; note_firstn; lia.
+  all: note_cost; note_firstn; note_remove; lia.
 Qed.
 
 (* ====================================================================== *)
